@@ -26,9 +26,9 @@ Definition bak_is_preimage (after : fs) : Prop :=
 Definition output_kept (before after : fs) : Prop :=
   get after Output = get before Output.
 
-(* Calls that only look. *)
+(* Calls that leave every file alone: exists(), and serialisation into memory. *)
 Definition only_looks (o : op) : bool :=
-  match o with Exists _ => true | _ => false end.
+  match o with Exists _ | Render _ => true | _ => false end.
 
 Definition failed (st : status) : Prop := st <> SOk.
 
@@ -38,3 +38,20 @@ Definition failed (st : status) : Prop := st <> SOk.
 Definition backup_first (l : list op) : Prop :=
   exists pre post, l = pre ++ Copy2 Target Bak :: post
                    /\ spares Target pre = true /\ spares Bak post = true.
+
+(* "the target file is byte-for-byte unchanged and no output or backup file has
+   appeared": the target and the output name hold what they held; the backup
+   name holds what it held, or nothing. *)
+Definition target_kept_nothing_appeared (before after : fs) : Prop :=
+  get after Target = get before Target /\ get after Output = get before Output
+  /\ (get after Bak = get before Bak \/ get after Bak = None) /\ get after Tmp = None.
+
+(* An exception class that `except Exception` catches. *)
+Definition is_exception (k : fkind) : Prop := k <> FInterrupt.
+
+(* "the dump step of yaml-set's YAML save fails": the dumper raises by itself
+   (and no other call fails), or an injected failure of any mode and of any
+   Exception class hits exactly that call. *)
+Definition dump_step_fails (backup ok : bool) (f : option fault) (s : fs) : Prop :=
+  (ok = false /\ f = None)
+  \/ (exists ft, f = Some ft /\ at_k ft = set_dump_pos backup s /\ is_exception (f_kind ft)).
